@@ -38,7 +38,7 @@ type Program struct {
 var families = []string{"buffer", "deadline", "dpipe", "vnet", "filters", "udp", "build-networks", "nat"}
 
 // number of operation codes per family
-var nOps = map[string]int{"buffer": 9, "deadline": 6, "dpipe": 7, "vnet": 10, "filters": 9, "udp": 7, "build-networks": 3, "nat": 10}
+var nOps = map[string]int{"buffer": 9, "deadline": 6, "dpipe": 7, "vnet": 12, "filters": 9, "udp": 7, "build-networks": 3, "nat": 10}
 
 func quiet() logging.LoggerFactory {
 	lf := logging.NewDefaultLoggerFactory()
@@ -208,6 +208,17 @@ func newWorld(family string, goroutines int) (*world, error) {
 						_ = r.Start()
 					} else {
 						_, _ = c1.WriteTo([]byte("ping"), a2)
+					}
+				case 10, 11:
+					// the topology grows while the router forwards (vnet.UDPProxy does this for
+					// every new peer): a fresh host is attached, binds a socket and sends
+					if nn, err := vnet.NewNet(&vnet.NetConfig{}); err == nil {
+						if r.AddNet(nn) == nil && op == 11 {
+							if cn, err := nn.ListenUDP("udp", &net.UDPAddr{IP: net.IPv4zero, Port: 4000}); err == nil {
+								_, _ = cn.WriteTo([]byte("new"), a1)
+								_ = cn.Close()
+							}
+						}
 					}
 				}
 			},
@@ -581,7 +592,7 @@ func genProgram(t *rapid.T) Program {
 	return p
 }
 
-const ruleC19 = "rapid-drawn client programs: one family of shared objects (packetio.Buffer; deadline.Deadline; a dpipe pair; a vnet router with two hosts, their sockets, ListenUDP/Dial, AddChunkFilter, Stop/Start; a router with a TokenBucketFilter and a LossFilter under traffic while TBFRate/TBFMaxBurst are Set; a udp listener with Accept/Close and connection Read/Write/Close on a real socket; building independent virtual networks in parallel; a LAN router behind a NAPT under outbound traffic to known and new remotes, inbound traffic to the learned external address, new sockets and mapping expiry), 2..6 goroutines each running 1..8 drawn operations concurrently; executed for real in a binary built with -race and GORACE=halt_on_error=1; oracle: the race detector (any report is a violation); every program touches the shared objects from >=2 goroutines with mutating operations, so every program counts as non-trivial; distinct by hash of the program"
+const ruleC19 = "rapid-drawn client programs: one family of shared objects (packetio.Buffer; deadline.Deadline; a dpipe pair; a vnet router with two hosts, their sockets, ListenUDP/Dial, AddChunkFilter, Stop/Start, AddNet of fresh hosts while it forwards; a router with a TokenBucketFilter and a LossFilter under traffic while TBFRate/TBFMaxBurst are Set; a udp listener with Accept/Close and connection Read/Write/Close on a real socket; building independent virtual networks in parallel; a LAN router behind a NAPT under outbound traffic to known and new remotes, inbound traffic to the learned external address, new sockets and mapping expiry), 2..6 goroutines each running 1..8 drawn operations concurrently; executed for real in a binary built with -race and GORACE=halt_on_error=1; oracle: the race detector (any report is a violation); every program touches the shared objects from >=2 goroutines with mutating operations, so every program counts as non-trivial; distinct by hash of the program"
 
 func TestC19Programs(t *testing.T) {
 	r := ev.New("C19", "programs", ruleC19)
@@ -642,4 +653,3 @@ func TestC19Replay(t *testing.T) {
 		}
 	}
 }
-
